@@ -46,7 +46,7 @@ func (c *countingCtx) Err() error {
 }
 
 func goroutinesSettle(base int) bool {
-	deadline := time.Now().Add(2 * time.Second)
+	deadline := time.Now().Add(5 * time.Second)
 	for time.Now().Before(deadline) {
 		if runtime.NumGoroutine() <= base {
 			return true
